@@ -21,6 +21,7 @@ import pathlib as _real_pathlib
 import types
 
 PREFIX = "/simfs/"
+TMPDIR = "/simfs/tmpdir"  # what tempfile.gettempdir() is in the simulation; may sit on another device than the pairing file
 
 
 class SimCrash(BaseException):
@@ -30,7 +31,9 @@ class SimCrash(BaseException):
 class SimFS:
     def __init__(self) -> None:
         self.files: dict[str, bytes] = {}
-        self.dirs: set[str] = {"/simfs"}
+        self.dirs: set[str] = {"/simfs", TMPDIR}
+        self.tmp_other_device = False  # the system temp dir is another file system (tmpfs /tmp, container volume): rename -> EXDEV
+        self.tmp_counter = 0
         self.ops: list[tuple] = []  # trace of operations (kind, path, nbytes)
         self.op_counter = 0
         self.crash_at: tuple[int, int] | None = None  # (op index, prefix of pending bytes kept)
@@ -141,11 +144,16 @@ class SimFS:
         self.open_files.append(f)
         return f
 
+    def device(self, path: str) -> str:
+        return "tmp" if self.tmp_other_device and (path == TMPDIR or path.startswith(TMPDIR + "/")) else "main"
+
     def replace(self, src, dst) -> None:
         src, dst = _real_os.fspath(src), _real_os.fspath(dst)
         if self.step("replace", dst):
             if src not in self.files:
                 raise FileNotFoundError(2, "No such file or directory", src)
+            if self.device(src) != self.device(dst):
+                raise OSError(18, "Invalid cross-device link", src)  # rename(2) never crosses file systems
             self.files[dst] = self.files.pop(src)
 
     def unlink(self, path) -> None:
@@ -193,6 +201,7 @@ class SimFile:
         self.name = path
         self.pos = 0  # offset at which pending bytes land (0 after a truncating open)
         self.raw = False
+        self.delete_on_close = False
 
     def write(self, s) -> int:
         data = bytes(s) if self.binary else s.encode(self.encoding)
@@ -244,6 +253,8 @@ class SimFile:
         self.closed = True
         if self.fs.step("close", self.path, len(self.pending), self):
             self._commit()
+        if self.delete_on_close and not self.fs.crashed:
+            self.fs.files.pop(self.path, None)
 
     def fileno(self) -> int:
         return 10_000 + self.fs.open_files.index(self)
@@ -456,17 +467,63 @@ class _TempfileShim:
 
     @staticmethod
     def NamedTemporaryFile(mode="w+b", buffering=-1, encoding=None, newline=None, suffix=None, prefix=None, dir=None, delete=True, **kw):
-        d = _real_os.fspath(dir) if dir is not None else "/tmp"
+        d = _real_os.fspath(dir) if dir is not None else TMPDIR  # no dir= : the system temp dir, not the target's directory
         if not _is_sim(d):
             import tempfile
 
             return tempfile.NamedTemporaryFile(mode, buffering, encoding, newline, suffix, prefix, dir, delete, **kw)
-        name = _real_os.path.join(d, (prefix or "tmp") + "simtmp" + (suffix or ""))
-        return CUR.fs.open(name, mode.replace("+", ""), encoding=encoding)
+        CUR.fs.tmp_counter += 1
+        name = _real_os.path.join(d, (prefix or "tmp") + f"simtmp{CUR.fs.tmp_counter}" + (suffix or ""))
+        f = CUR.fs.open(name, mode.replace("+", ""), encoding=encoding)
+        f.delete_on_close = bool(delete)
+        return f
 
     @staticmethod
     def mkstemp(suffix=None, prefix=None, dir=None, text=False):
         raise NotImplementedError("mkstemp is not simulated")
+
+
+class _ShutilShim:
+    """shutil stand-in over SimFS: move() is a rename when both names are on one device and otherwise falls back, as the real
+    one does, to copying (destination opened "wb" = truncated, then written chunk by chunk) and unlinking the source"""
+
+    def __getattr__(self, name):
+        import shutil
+
+        return getattr(shutil, name)
+
+    @staticmethod
+    def copyfile(src, dst, **kw):
+        if not (_is_sim(src) or _is_sim(dst)):
+            import shutil
+
+            return shutil.copyfile(src, dst, **kw)
+        with CUR.fs.open(src, "rb") as fsrc:
+            data = fsrc.read()
+        out = CUR.fs.open(dst, "wb")
+        try:
+            for i in range(0, max(len(data), 1), 65536):
+                out.write(data[i : i + 65536])
+        finally:
+            out.close()
+        return dst
+
+    copy = copy2 = copyfile
+
+    @staticmethod
+    def move(src, dst, **kw):
+        if not (_is_sim(src) or _is_sim(dst)):
+            import shutil
+
+            return shutil.move(src, dst, **kw)
+        try:
+            CUR.fs.replace(src, dst)
+        except OSError as e:
+            if e.errno != 18:
+                raise
+            _ShutilShim.copyfile(src, dst)
+            CUR.fs.unlink(src)
+        return dst
 
 
 _installed = False
@@ -485,5 +542,6 @@ def install() -> None:
         mod.pathlib = _PathlibShim()
         mod.os = _OsShim()
         mod.tempfile = _TempfileShim()
+        mod.shutil = _ShutilShim()
         if hasattr(mod, "Path"):
             mod.Path = _path_factory
